@@ -531,6 +531,7 @@ def run(run, tier):
     from . import esirx
     esirx.part(run, tier, 'C10', props, per)
     C.extra_props(run, 'C10', props, ['C10esis'])
+    from . import discx; discx.part(run, tier, 'C10', props, per)
     stats['scripted_simulators'] = per
     # ---- verdicts
     for key, (size, what, c) in spec_bad.items():
@@ -561,6 +562,9 @@ def run(run, tier):
 
 
 def replay(rp):
+    if rp['replay'].get('discx'):
+        from . import discx
+        return discx.replay(rp)
     if rp['replay'].get('checker'):
         from . import esirx
         return esirx.replay(rp)
